@@ -77,7 +77,25 @@ def inventory(ctx, roots, skip, extern_panicking):
     return cl, sites
 
 
-def match_table(ctx, rule, sites, table, panic_abort, prop_label):
+def dedupe(ctx, sites, panic_abort):
+    """One entry per written instruction: [(representative Site, discharge reason or None)]. An instruction of a
+    helper that was inlined into several callers is discharged only if every copy is (the operands may be
+    constants in one caller and not in another)."""
+    from collections import OrderedDict
+    groups = OrderedDict()
+    for s in sites:
+        groups.setdefault((s.ident, s.kind, s.callee), []).append(s)
+    out = []
+    for ss in groups.values():
+        rs = [auto_discharge(s, s.fn, ctx.T(s.fn), panic_abort) for s in ss]
+        if all(r is not None for r in rs):
+            out.append((ss[0], rs[0]))
+        else:
+            out.append(([s for s, r in zip(ss, rs) if r is None][0], None))
+    return out
+
+
+def match_table(ctx, rule, sites, table, panic_abort, prop_label, closure=None):
     """Compare an inventory with a reviewed table: every site must be auto-discharged or tabled
     (with multiplicity); a site whose function vanished is re-matched as 'moved' when exactly
     one unmatched new site has the same (crate, kind, callee, operand)."""
@@ -85,8 +103,7 @@ def match_table(ctx, rule, sites, table, panic_abort, prop_label):
     tab = {e["key"]: e for e in table["sites"]}
     found = defaultdict(list)
     auto = Counter()
-    for s in sites:
-        r = auto_discharge(s, s.fn, ctx.T(s.fn), panic_abort)
+    for s, r in dedupe(ctx, sites, panic_abort):
         if r is not None:
             auto[r] += 1
             continue
@@ -102,7 +119,16 @@ def match_table(ctx, rule, sites, table, panic_abort, prop_label):
                 unmatched_new.append(s)
     # moved re-matching
     missing = []
+    in_scope = None
+    if closure is not None:
+        in_scope = set(panics.origin_root(f.qname) for f in closure)
+        existing = set(panics.origin_root(f.qname) for f in ctx.F.fns) | set(panics.origin_root(q) for q in getattr(ctx.F, "helpers", {}))
     for key, e in tab.items():
+        if in_scope is not None:
+            root = [x.strip() for x in key.split("|")][1]
+            # a tabled site can have 'moved' only out of a function of this closure or of one that no longer exists
+            if root not in in_scope and root in existing:
+                continue
         n = len(found.get(key, []))
         for i in range(n, e["count"]):
             missing.append(e)
